@@ -171,6 +171,24 @@ pub fn space(thorough: bool) -> Vec<Prog> {
             out.push(build_mix(vec![a, b], format!("mix={mix}|{i}"), mix));
         }
     }
+    // an override that also sizes a compute entry's workgroup directly (`@workgroup_size(name)`), in modules that have
+    // render entries too: it is an override like any other (field, key, map entry); the resolution leg is skipped
+    // for these (a workgroup size of 0 or u32::MAX is rejected by naga for reasons of its own)
+    {
+        let n0 = out.len();
+        for i in 0..n0 {
+            let p = &out[i];
+            if !p.mix.contains('C') {
+                continue;
+            }
+            let names: Vec<String> = p.specs.iter().filter(|s| matches!(s.ty, OTy::U32 | OTy::I32) && s.default != ODefault::Dependent).map(|s| s.name.clone()).take(3).collect();
+            if names.is_empty() || !p.src.contains("@workgroup_size(1)") {
+                continue;
+            }
+            let src = p.src.replace("@workgroup_size(1)", &format!("@workgroup_size({})", names.join(", ")));
+            out.push(Prog { key: format!("wgsize|{}", p.key), src, specs: p.specs.clone(), mix: p.mix });
+        }
+    }
     // the same declarations with their types written through `alias`es, and with the type left to inference from a
     // literal initialiser
     {
@@ -460,6 +478,9 @@ pub fn run(tier: &str) -> i32 {
             }
             // the shader compiler's override resolution must accept the map and see the values
             let map: naga::back::PipelineConstants = direct.iter().map(|(k, v)| (k.clone(), *v)).collect();
+            if p.key.contains("wgsize|") {
+                continue;
+            }
             match naga::back::pipeline_constants::process_overrides(&module, &info, &map) {
                 Err(e) => rep.violation(case.clone(), format!("naga's override resolution rejects the map: {e}"), detail(format!("{direct:?}"))),
                 Ok((m2, _)) => {
